@@ -131,3 +131,26 @@ def run(ctx):
         got = [loops.cycle_without(f, h, body, loops.consuming(prog, f, body)) for h, body in ls.items()]
         ctx.check(got == [want], R, "%s: loop progress" % name, "cycle without progress" if want else "every cycle makes progress",
                   "engine self-test: %s should have one loop with non-progress cycle=%s, got %s" % (name, want, got), key="%s|%s" % (R, name))
+    # helper inlining: after inline.run the caller contains the helper's guarded index
+    from . import inline as _inline
+    import copy as _copy
+    f = prog.fn("canary::canary_caller")
+    before = len(f.blocks)
+    known_backup = _inline.load_known
+    try:
+        _inline.load_known = lambda: {n for n in prog.by_name if not n.endswith("canary_helper")}
+        prog.removed_helpers = []
+        _inline.run(prog, ws=("canary",))
+    finally:
+        _inline.load_known = known_backup
+    ss = [s for s in panic.sites_of(prog, f) if s.cls == "assert:BoundsCheck"]
+    dis2 = panic.Discharger(prog)
+    got = dis2.discharge(ss[0])[0] if ss and dis2.discharge(ss[0]) else None
+    ctx.check(len(f.blocks) > before and len(ss) == 1 and got == "CMP-DOM" and "canary::canary_helper" not in prog.by_name, R, "inliner: helper body visible in the caller", "%d -> %d blocks" % (before, len(f.blocks)),
+              "engine self-test: canary_helper was not inlined into canary_caller (blocks %d -> %d, bounds checks %d, guard %s)" % (before, len(f.blocks), len(ss), got), key=R + "|inline")
+    # closure lifting: comparisons inside `is_some_and(|(lo, hi)| ..)` are seen in the creator's terms
+    from .lib import unit_comparisons
+    f = prog.fn("canary::closure_cmp")
+    cmp_ = {(o, x.lstrip("&*"), y.lstrip("&*")) for (o, x, y, fa) in unit_comparisons(prog, f)}
+    ctx.check(("Lt", "p2", "p1@Some.0.0") in cmp_ and ("Lt", "p1@Some.0.1", "p2") in cmp_, R, "closure lifting: captured and bound variables", str(sorted(cmp_)),
+              "engine self-test: comparisons of closure_cmp's closure not lifted into the creator's terms: %s" % sorted(cmp_), key=R + "|lift")
